@@ -16,6 +16,11 @@ def run_one(m, repo, keep=False):
     try:
         dst = os.path.join(tmp, "repo")
         subprocess.run(["rsync", "-a", "--exclude", ".git", repo + "/", dst + "/"], check=True)
+        if m.get("base"):
+            # a mutant of refactored code: apply the behaviour-preserving patch first
+            r = subprocess.run(["patch", "-p1", "-s", "-i", os.path.join(HERE, "refactorings", m["base"])], cwd=dst, capture_output=True, text=True, errors="replace")
+            if r.returncode != 0:
+                return (m["id"], "skipped", "base patch %s does not apply: %s" % (m["base"], (r.stdout + r.stderr)[:200]))
         edits = m.get("edits") or [{"file": m["file"], "old": m["old"], "new": m["new"]}]
         for e in edits:
             path = os.path.join(dst, e["file"])
